@@ -207,7 +207,11 @@ type Case struct {
 	Disp bool   `json:"disp"`
 	Comp string `json:"comp"` // "" | bash | zsh | help
 	HN   int    `json:"hn"`   // help case: the node whose help is requested
-	Res  Res    `json:"res"`
+	// robustness driver only: COMP_LINE text and Parse arguments given verbatim instead of being built from Argv
+	UseRaw  bool     `json:"useraw,omitempty"`
+	RawLine string   `json:"rawline,omitempty"`
+	RawArgs []string `json:"rawargs,omitempty"`
+	Res     Res      `json:"res"`
 }
 
 func (c *Cfg) Normalize() {
